@@ -484,4 +484,19 @@ theorem ofTT_erase (t : TextTape.Tok) : ofTT t.erase = ofTT t := by
 theorem map_ofTT_erase (T : List TextTape.Tok) : (T.map TextTape.Tok.erase).map ofTT = T.map ofTT := by
   simp [List.map_map, Function.comp_def, ofTT_erase]
 
+theorem scall_valid_validX (c : SCall) (h : c.Valid) : c.ValidX := by
+  cases c <;> first | exact Or.inl h | trivial
+
+theorem scall_validX (c : SCall) (h : c.ValidX) : c.scal.ValidX := by
+  cases c with
+  | unq b => exact h
+  | raw s => exact h
+  | quo p => exact Or.inl (quoted_scal_valid p)
+  | bool b => exact Or.inl (scall_valid (.bool b) trivial)
+  | i32 i => exact Or.inl (scall_valid (.i32 i) trivial)
+  | u32 n => exact Or.inl (scall_valid (.u32 n) trivial)
+  | i64 i => exact Or.inl (scall_valid (.i64 i) trivial)
+  | u64 n => exact Or.inl (scall_valid (.u64 n) trivial)
+  | date f y m d hr => exact Or.inl (scall_valid (.date f y m d hr) trivial)
+
 end Jomini.Writer
